@@ -183,8 +183,15 @@ def run_foreign(doc, st):
             ['model-accepts' if r.model_accepts else 'model-rejects'])
 
     if not r.model_accepts:
-        st.exclude('object-model-cannot-hold-it')
-        return
+        # the model says the object model cannot hold this file; if it is
+        # accepted all the same, the property's obligations apply to it
+        try:
+            ns.DiffX.from_bytes(r.data)
+        except Exception:
+            st.exclude('object-model-cannot-hold-it')
+            return
+
+        st.cls('accepted-although-the-model-rejects')
 
     if empty_meta:
         # The object model documents that empty content sections are
